@@ -31,14 +31,14 @@ MANIFEST_ENTRY = dict(
 
 ASSUME = [
     "the grammar enumerates single-field mutations of the listed instances; multi-field and random inputs are sampled with VERIF_SEED",
-    "a run that takes longer than 30 s counts as a hang, more than 768 MiB above the level at its start as unbounded allocation",
+    "a run that takes longer than 30 s (6 s once three runs have hung) counts as a hang, more than 768 MiB above the level at its start as unbounded allocation",
     "overflow checks are off as in the shipped build (u32 length underflow wraps and runs into EOF)",
     "the wallet-store digest covers outputs, transaction log, account paths and stored transaction files of the wallet under test",
 ]
 
 TIERS = {
     "quick": dict(cfg="MC_C09_quick.cfg", rep="MC_C09_repaired_quick.cfg", nmulti=200, njunk=400, mc_timeout=150, tv_timeout=170),
-    "thorough": dict(cfg="MC_C09.cfg", rep="MC_C09_repaired.cfg", nmulti=6000, njunk=12000, mc_timeout=600, tv_timeout=1000),
+    "thorough": dict(cfg="MC_C09.cfg", rep="MC_C09_repaired.cfg", nmulti=25000, njunk=40000, mc_timeout=600, tv_timeout=1200),
 }
 
 
